@@ -288,10 +288,11 @@ impl Hist<'_> {
         } else { (mid.clone(), vec![], vec![]) };
 
         let opname = desc["op"].as_str().unwrap_or("?").to_string();
-        // the schedule of the seeded change: one class finishes its roll while another one is staged and its active
-        // key is still tied to a repository that is not the default one
+        // the schedule of the seeded change: one class finishes its roll while another one is staged and the certificate
+        // of its active key points to a repository that is not the default one (judged by the certificate, not by the
+        // implementation's own old_repo marks)
         let finished: Vec<u64> = mops.iter().filter_map(|m| m.strip_prefix("OFinish ").and_then(|c| c.parse().ok())).collect();
-        let crit = !finished.is_empty() && mid.classes.iter().any(|(c, st)| !finished.contains(c) && matches!(st, CState::Stg(_, k) if k.old.is_some()));
+        let crit = !finished.is_empty() && mid.classes.iter().any(|(c, st)| !finished.contains(c) && matches!(st, CState::Stg(_, k) if k.at != mid.repo));
         if crit { self.critical = true; }
         if mops.iter().any(|m| m.starts_with("OUpdateRepo")) { self.migrations += 1; }
 
